@@ -125,6 +125,9 @@ TIME_DELTA_ATTR_MAP = (
 # ufunc functions that will not work with DTYPE_STR_KINDS, but do work if converted to object arrays
 UFUNC_AXIS_STR_TO_OBJ = {np.min, np.max, np.sum}
 
+# skipna ufunc functions that work with DTYPE_NAT_KINDS, ignoring NaT
+UFUNC_AXIS_SKIPNA_NAT = {np.nanmin, np.nanmax}
+
 #-------------------------------------------------------------------------------
 # utility type groups
 
@@ -606,8 +609,10 @@ def ufunc_axis_skipna(
                 v = array
 
     elif array.dtype.kind == 'M' or array.dtype.kind == 'm':
-        # dates do not support skipna functions
-        return ufunc(array, axis=axis, out=out)
+        # dates do not support skipna functions, other than those that ignore NaT
+        if not skipna or ufunc_skipna not in UFUNC_AXIS_SKIPNA_NAT:
+            return ufunc(array, axis=axis, out=out)
+        v = array
 
     elif array.dtype.kind in DTYPE_STR_KINDS and ufunc in UFUNC_AXIS_STR_TO_OBJ:
         v = array.astype(object)
